@@ -252,6 +252,38 @@ class Ctx:
                 raise Inconclusive("TLC reports %s violated without a REJECT record (log %s)" % (inv, r.log))
         return len(lines), rejects
 
+    def validate_histories(self, module, trace_path, procs=4, timeout=1200, per_job=40):
+        """Code -> spec for DEPENDENT events: the trace is a concatenation of histories, each starting with a
+        "reset" event; histories are distributed over several single-worker TLC processes, each validating its
+        events strictly in order.  A history is accepted iff TLC consumed it to the end without a REJECT record.
+        Returns (number of events, list of REJECT records with global 1-based index "l")."""
+        with open(trace_path) as f:
+            lines = f.readlines()
+        starts = [i for i, ln in enumerate(lines) if '"ev":"reset"' in ln]
+        if not starts or starts[0] != 0:
+            raise Inconclusive("history trace does not start with a reset event")
+        bounds = starts + [len(lines)]
+        groups, cur, cur_start = [], 0, 0
+        for k in range(len(starts)):
+            cur += 1
+            if cur == per_job or k == len(starts) - 1:
+                groups.append((bounds[cur_start], bounds[k + 1]))
+                cur, cur_start = 0, k + 1
+        cfg = "INIT Init\nNEXT Next\nCHECK_DEADLOCK FALSE\n"
+        jobs = [dict(module=module, cfg=cfg, files={"trace.ndjson": "".join(lines[a:b]).encode()}, workers=1, timeout=timeout)
+                for (a, b) in groups]
+        runs = self.tlc_parallel(jobs, procs=procs)
+        rejects = []
+        for (a, b), r in zip(groups, runs):
+            if r.distinct != (b - a) + 1:
+                raise Inconclusive("TLC consumed %d of %d events of %s (log %s)" % (r.distinct - 1, b - a, module, r.log))
+            for rec in r.records:
+                if rec.get("kind") == "REJECT":
+                    rec = dict(rec)
+                    rec["l"] = rec["l"] + a
+                    rejects.append(rec)
+        return len(lines), rejects
+
     # ------------------------------------------------------------------ verdict pieces
     def sample(self, s):
         if len(self.samples) < 12:
